@@ -60,7 +60,7 @@ CHECKS["C03"] = dict(
     design="5 C03", technique="Coq proof (invariant CacheInv by induction over operation histories) + differential correspondence + reachability oracle",
     note=WORLD_NOTE + "The former known finding D4 (assigning into ir.modules a module already elsewhere in the same list, or named twice) was repaired upstream (fix 9a22f6d) and is inside model and streams. UUIDs are globally distinct in the model; equal UUIDs in different IRs (two loads, deep copies; a member exchanged for its twin by one ^=) are covered by the correspondence streams only.")
 CHECKS["C04"] = dict(
-    text="Theorems (Props/C04.v, 19) for every reachable state: c in kids p <-> parent c = p; no duplicates; single parent; kinds layered; a move removes the node from its previous owner "
+    text="Theorems (Props/C04.v, 24) for every reachable state: c in kids p <-> parent c = p; no duplicates; single parent; kinds layered; a move removes the node from its previous owner "
          "(set add, parent attribute for all six relations, module-list insert/append); accessors are walks of the back-pointers and reach = {n | ir_of n = ir}; frame: nodes not named keep "
          "their entry. Correspondence: histories over all entry points from members / non-members / nodes owned elsewhere; after every step parents, collections, accessors, aggregate "
          "iterators; direct oracle = forest consistency by set comparison; default-argument sharing probes.",
@@ -95,15 +95,15 @@ CHECKS["C13"] = dict(
     design="5 C13", technique="Coq proof (sortedness invariant + exactness of the range scan) + differential correspondence + fresh-scan oracle",
     note=WORLD_NOTE)
 CHECKS["C16"] = dict(
-    text="Theorems (Props/C16.v, 55) for reachable states: each of the ten set methods yields the Python set result (KeyError exactly when the built-in raises); every module-list method yields the list "
-         "result on the list from which a moved module was first removed (ValueError/IndexError exactly when the built-in raises); the expression map refines dict with iteration by offset; moved-not-duplicated, also for item / slice assignment of a module the list already holds or one named twice (C16_same_list_assignment_moves: kept at the last position assigned, the others keep their order); "
+    text="Theorems (Props/C16.v, 52) for reachable states: each of the ten set methods yields the Python set result (KeyError exactly when the built-in raises); every module-list method yields the list "
+         "result -- a module that the list already holds is moved to where the built-in puts it, one that another IR holds leaves that IR -- (ValueError/IndexError exactly when the built-in raises); the expression map refines dict with iteration by offset; moved-not-duplicated, also for item / slice assignment of a module the list already holds or one named twice (C16_same_list_assignment_moves: kept at the last position assigned, the others keep their order); "
          "a failed operation leaves the state (and the invariant) unchanged; the read-only sequence interface (index with bounds, count, in, [i], [a:b:c], reversed) of the module list is "
          "Python's (Model/SeqOps.v: first position inside the clamped bounds, IndexError exactly outside [-len, len), slice positions s, s+c, ... as slice.indices gives them); the non-mutating set operators and comparisons inherited from collections.abc.Set (Model/SetAlg.v) are the mathematical ones on duplicate-free member lists. Correspondence + lock-step shadows: every call also made on built-in list/set/dict, incl. mixins, operators with plain sets on either "
          "side, explicit-step slices, foreign-kind and non-node arguments, out-of-range indices.",
     design="5 C16", technique="Coq proof (refinement of built-in semantics by effect lemmas) + differential correspondence + built-in shadow oracle",
     note=WORLD_NOTE + "Non-mutating operators return plain sets since the upstream fix 12e88c6; their values are modelled by Model/SetAlg.v (the Set mixins), the result TYPE is judged by the shadow oracle only. Same-list item/slice assignment (the former finding D4, repaired by fix 9a22f6d) is modelled by ml_assign / assign_slice and stated as C16_same_list_assignment_moves; extended-slice assignment (l[a:b:c] = vs, c other than 1) is the operation OModSetExt (assign_ext on the positions slice.indices gives; C16_modlist_setslice_extended: ValueError exactly for step 0 and for a size mismatch, with nothing touched; otherwise no duplicate, ownership consistent, and the built-in list's result -- read back by l[a:b:c] -- exactly when the values are distinct and none stays at an unassigned position).")
 CHECKS["C11"] = dict(
-    text="Theorems (Props/C11.v, 21) over Model/Cfg.v (cfg.py as coded: _edge_key, guarded add, keyed discard, the MutableSet mixins transcribed from CPython): every state reachable by any "
+    text="Theorems (Props/C11.v, 22) over Model/Cfg.v (cfg.py as coded: _edge_key, guarded add, keyed discard, the MutableSet mixins transcribed from CPython): every state reachable by any "
          "sequence of operations is a duplicate-free set of (source, target, label) triples; each operation is exactly the mathematical set operation and fails exactly when the built-in set would; "
          "membership/len/iteration agree with the set; add-present and discard-absent are identities; parallel edges differing in label coexist; out_edges/in_edges and CfgNode.outgoing/incoming_edges are "
          "exactly the edges with that source/target. Correspondence: random histories on the working tree and the extracted model with a shadow-set oracle, all adjacency views after every step.",
@@ -124,7 +124,7 @@ CHECKS["C01"] = dict(
     design="5 C01", technique="Coq proof (round trip through the staged reader, invariant of the UUID table) + differential correspondence + content oracle",
     note=PROTO_NOTE + "Premise wf = the property's premise with entry points / referents / expression symbols resolvable in decode order and version = PROTOBUF_VERSION. Known finding D7: an entry point in a LATER module saves but does not load.")
 CHECKS["C02"] = dict(
-    text="Theorems (Props/C02.v, 22): header layout; per-message writer characterisation (has_address <-> address is not None, payload one-ofs, entry_point empty iff None, label present iff not None, vertices = all code "
+    text="Theorems (Props/C02.v, 24): header layout; per-message writer characterisation (has_address <-> address is not None, payload one-ofs, entry_point empty iff None, label present iff not None, vertices = all code "
          "blocks and proxies, 16-byte UUIDs); reader: whoever wrote an accepted message, to_proto (loaded content) = the message up to set normalisation; obligations over the REGENERATED tables: every schema enum constant "
          "has a Python member and vice versa (7 enums), versions agree, every schema field of every message is modelled (a field added to the schema breaks the obligation). Correspondence: W and R streams separately "
          "against classes built from /repo/proto, plus direct Python statements of the field correspondence.",
